@@ -130,7 +130,7 @@ class C17(Engine):
             "switches or none, -bin/-address/-set_pc/-break_io/-sim_serial, -disasm / -disasm_range / -run / interactive) and "
             "0-15 console commands (valid, boundary and malformed arguments), SIGINT planned during run commands, ending with quit. "
             "Distinct = distinct seam-event hash; non-trivial = a fault fired (read fault, SIGINT) or the stored file was damaged.")
-    assumptions = ["every session ends with quit (EOF on stdin without quit is not claimed)",
+    assumptions = ["every session ends with quit or with end of input (Ctrl-D)",
                    "display is never toggled off before run on riscv/mips/ebpf (their run loops have no seam call to schedule a SIGINT at)",
                    "requested ranges are bounded to 64 Ki units except explicit wrap probes at the top of the address space"]
 
@@ -229,7 +229,8 @@ class C17(Engine):
                     else:
                         body = []
                     lines += body + [""]
-            lines.append("quit")
+            # told to terminate: quit, or end of input (Ctrl-D)
+            lines.append("quit" if rng.chance(4, 5) else "\x04")
         elif mode == "-run":
             sigs.append({"trigger": "during", "k": rng.pick([0, 1, 5, 40, 300, 1500]), "after": 0, "repeat": rng.pick([7, 50, 400])})
         plan["console"] = lines
